@@ -16,6 +16,7 @@ import copy
 
 from .model import AnalysisError
 from .util import method_call, walk_no_nested
+from .util import U as U_
 
 
 class Cond:
@@ -185,6 +186,33 @@ def _fold_lookup(node):
     """Fold lookups whose container is spelled out: a field of a namedtuple
     built right there, an entry of a dict display."""
     en = _HOOK['enum']
+    # getattr(o, 'name') is o.name; <option object>.dest is the option's
+    # name (an oslo.config option kept in a module-level name)
+    if isinstance(node, ast.Call) and isinstance(node.func, ast.Name) and \
+            node.func.id == 'getattr' and len(node.args) == 2 and \
+            not node.keywords and isinstance(node.args[1], ast.Constant) \
+            and isinstance(node.args[1].value, str) and \
+            node.args[1].value.isidentifier():
+        return ast.copy_location(ast.Attribute(
+            value=node.args[0], attr=node.args[1].value, ctx=ast.Load()),
+            node)
+    if isinstance(node, ast.Attribute) and node.attr == 'dest' and \
+            isinstance(node.ctx, ast.Load) and en is not None and isinstance(
+                node.value, (ast.Name, ast.Attribute)):
+        try:
+            q = en.prog.resolve(en._stack[-1].module, node.value)
+        except Exception:
+            q = None
+        if isinstance(q, str) and '.' in q:
+            mq, nm = q.rsplit('.', 1)
+            mod = en.prog.modules.get(mq) if hasattr(
+                en.prog, 'modules') else None
+            d = mod.assigns.get(nm) if mod is not None else None
+            if isinstance(d, ast.Call) and U_(d.func).endswith('Opt') and \
+                    d.args and isinstance(d.args[0], ast.Constant) and \
+                    isinstance(d.args[0].value, str):
+                return ast.copy_location(ast.Constant(
+                    value=d.args[0].value.replace('-', '_')), node)
     if isinstance(node, ast.Attribute) and isinstance(node.ctx, ast.Load) \
             and isinstance(node.value, ast.Call) and en is not None:
         ra = en.prog.record_args(en._stack[-1].module, node.value)
